@@ -284,7 +284,7 @@ func (e *Exec) dispatch(st *State, fr *Frame, ci *callInfo, retTo ssa.Value, mod
 		return e.afterCall(st, fr, retTo, res, mode)
 	}
 	// 2. contract (own or assumed)
-	if c := e.eng.specs.Funcs[ci.key]; c != nil && !(e.top != nil && e.top.inlineSelf && ci.fn == e.fn) {
+	if c := e.eng.specs.Funcs[ci.key]; c != nil && !(e.top != nil && e.top.inlineSelf && ci.fn == e.fn) && !e.forcedInline(ci.key) {
 		for _, a := range ci.args {
 			e.publish(st, a)
 		}
@@ -775,6 +775,22 @@ func (e *Exec) applyContract(st *State, fr *Frame, ci *callInfo, c *FuncContract
 		succ = append(succ, s2...)
 	}
 	return succ
+}
+
+// forcedInline: the contract of the function under verification asks for the
+// body of this callee instead of its contract (`attr inline = key, key`): used
+// where the callee's effect depends on a closure argument that its first-order
+// contract cannot describe.
+func (e *Exec) forcedInline(key string) bool {
+	if e.top == nil || e.top.contract == nil {
+		return false
+	}
+	for _, k := range strings.Split(e.top.contract.Attrs["inline"], ",") {
+		if strings.TrimSpace(k) == key {
+			return true
+		}
+	}
+	return false
 }
 
 func (e *Exec) newPathID() string {
